@@ -507,6 +507,59 @@ func ScriptLiquidationStuck(hid int, nextID *int) MHistory {
 	return h
 }
 
+// ScriptEmptySide: corpus history for finding F-7. A margin-enabled pool whose native side is emptied by a provider-distribution
+// period with block rate 1 (an accepted policy setting); the margin begin blocker must skip the pool, not divide by its balance.
+func ScriptEmptySide(hid int, nextID *int) MHistory {
+	desc := map[string]interface{}{"corpus": "F-7: margin begin blocker on a pool with an empty side"}
+	e := env.New(env.Opts{NUsers: 4, Tokens: []string{"ceth"}})
+	w := &marginWorld{Env: e, FundFC: chain.NewAccount("fundfc"), FundInc: chain.NewAccount("fundinc"), Toks: []string{"ceth"}}
+	addrs := []string{e.Admin.Addr.String(), w.FundFC.Addr.String(), w.FundInc.Addr.String()}
+	for _, u := range e.Users {
+		addrs = append(addrs, u.Addr.String())
+	}
+	e.AssignAccountIDs(addrs)
+	e.BeginBlock()
+	mustOK(e.UpdateRewardsParams(0, 0, 0, "", false), "rewards params")
+	n := new(big.Int).Mul(big.NewInt(1000), chain.E(18))
+	mustOK(e.CreatePool(e.Users[0], "ceth", n, n), "create pool")
+	ps := *margintypes.DefaultGenesis().Params
+	ps.ForceCloseFundAddress, ps.IncrementalInterestPaymentFundAddress = w.FundFC.Addr.String(), w.FundInc.Addr.String()
+	ps.EpochLength = 1
+	mustOK(e.Tx(e.Admin, &margintypes.MsgUpdateParams{Signer: e.Admin.Addr.String(), Params: &ps}), "margin params")
+	mustOK(e.Tx(e.Admin, &margintypes.MsgUpdatePools{Signer: e.Admin.Addr.String(), Pools: []string{"ceth"}}), "margin pools")
+	h := MHistory{ID: hid, Env: e, Desc: desc}
+	rec := func(st MStep) {
+		*nextID++
+		st.ID = *nextID
+		h.Steps = append(h.Steps, st)
+	}
+	lp := &clptypes.ProviderDistributionPeriod{DistributionPeriodStartBlock: uint64(e.Height + 1), DistributionPeriodEndBlock: uint64(e.Height + 3), DistributionPeriodBlockRate: sdk.OneDec(), DistributionPeriodMod: 1}
+	mustOK(e.Tx(e.Admin, &clptypes.MsgAddProviderDistributionPeriodRequest{Signer: e.Admin.Addr.String(), DistributionPeriods: []*clptypes.ProviderDistributionPeriod{lp}}), "provider distribution period")
+	for b := 0; b < 5; b++ {
+		if e.EndBlock() {
+			break
+		}
+		e.Commit()
+		pre := e.MarginSnapshot()
+		panicked := e.BeginBlock()
+		post := e.MarginSnapshot()
+		pre.Height = post.Height
+		var rates [][3]*big.Int
+		for _, pp := range pre.Pools {
+			q := mpoolOf(post, pp.Asset)
+			if q == nil {
+				q = &pp
+			}
+			rates = append(rates, [3]*big.Int{q.Rate, q.RN, q.RD})
+		}
+		rec(MStep{Kind: 3, Rates: rates, OK: !panicked, Pre: pre, Post: post, StepNo: b, Desc: map[string]interface{}{"hook": "BeginBlock", "native_side": mpoolOf(pre, e.DenomID["ceth"]).NB.String()}})
+		if panicked {
+			break
+		}
+	}
+	return h
+}
+
 // MonMargin — the clauses of C13 on every observed state / transition.
 func MonMargin(rep *report.Report, h MHistory) {
 	e := h.Env
@@ -711,7 +764,7 @@ func C13(c Ctx) *report.Report {
 	rep := report.New("C13", c.Seed, c.Tier)
 	rng := chain.NewRng(c.Seed + 13)
 	next := 0
-	hs := []MHistory{ScriptExtExt(9017, &next), ScriptLiquidationStuck(9009, &next)}
+	hs := []MHistory{ScriptExtExt(9017, &next), ScriptLiquidationStuck(9009, &next), ScriptEmptySide(9007, &next)}
 	hs = append(hs, RunMarginHistories(c, rep, rng, c.N(30, 800), 45, &next)...)
 	nontrivial := 0
 	for _, h := range hs {
